@@ -2,10 +2,15 @@
 
 Correspondence of `C10.splitIts`, `C10.resuper`, `C10.splitOfIts` with the implementation and the
 executable specifications `splitCheck`, `sameIts · (nameByAam I)`, `splitOfItsCheck` applied to
-every implementation output.  The SMILES leg really goes through RDKit; RDKit's writer+reader
-being a map-preserving isomorphism on each side is the assumed contract and is checked per case:
-a case on which RDKit does not round-trip its own SMILES is a broken assumption (counted, outside
-the domain), not a violation.
+every implementation output.  The SMILES leg really goes through RDKit.  RDKit-representable =
+RDKit's writer followed by its reader WITH NOTHING REWRITTEN (no sanitisation, hydrogen atoms kept)
+is a map-preserving isomorphism on each side (checked per case with RDKit alone; a case on which that
+fails is outside the domain, counted).  Which reader settings the library uses is library code: an
+ITS that RDKit's default settings would rewrite is IN the domain: Kekule-written rings and nitro / diazo
+without charges fail (known finding K9, granted only inside `smiles_leg_scope`); explicit hydrogen nodes
+as prune(insert_hydrogens=True) makes them must survive (they were lost until b76371e, F17: a reader that
+drops them again is a violation).  Anything outside the scope of K9 is a violation.
+Every 5th plain split goes through the deprecated public duplicate `fgutils.utils.split_its`.
 """
 import glob
 import json
@@ -175,6 +180,72 @@ def gen_aromatic_reaction(rng):
     return mk([(n, n + 1, 1)]), mk([(n, n + 2, 1)]), ["aromatic_ring"]
 
 
+def gen_kekule_reaction(rng):
+    """like gen_aromatic_reaction, but the ring is WRITTEN in Kekule form (alternating 2/1 bonds on both sides), as the FGUtils
+    parser, apply_rule or a hand-built graph produce it; optionally the side chain carries a nitro / diazo / sulfone / phosphine
+    oxide group written WITHOUT charges.  RDKit's default reader re-perceives the ring as aromatic and rewrites pentavalent N."""
+    import networkx as nx
+    ring, rb = rng.choice([(["C"] * 6, [2, 1, 2, 1, 2, 1]), (["N"] + ["C"] * 5, [2, 1, 2, 1, 2, 1]), (["O"] + ["C"] * 4, [1, 2, 1, 2, 1]),
+                           (["S"] + ["C"] * 4, [1, 2, 1, 2, 1]), (["C"] * 6, [1, 1, 1, 1, 1, 1])])
+    n = len(ring)
+    X, Y, Z = "C", rng.choice(["Cl", "Br", "O", "N"]), rng.choice(["O", "N", "S"])
+    syms = ring + [X, Y, Z]
+    extra_edges = []
+    tags = ["kekule_ring" if 2 in rb else "saturated_ring"]
+    grp = rng.choice([None, "nitro", "diazo", "sulfone", "phosphine_oxide", "nitro"]) if 2 in rb else rng.choice(["nitro", "diazo", "sulfone"])
+    if grp:
+        b = len(syms)
+        if grp == "nitro":          # X-N(=O)=O
+            syms += ["N", "O", "O"]
+            extra_edges += [(n, b, 1), (b, b + 1, 2), (b, b + 2, 2)]
+        elif grp == "diazo":        # X=N#N
+            syms += ["N", "N"]
+            extra_edges += [(n, b, 2), (b, b + 1, 3)]
+        elif grp == "sulfone":      # X-S(=O)(=O)-C
+            syms += ["S", "O", "O", "C"]
+            extra_edges += [(n, b, 1), (b, b + 1, 2), (b, b + 2, 2), (b, b + 3, 1)]
+        else:                       # X-P(=O)(C)C
+            syms += ["P", "O", "C", "C"]
+            extra_edges += [(n, b, 1), (b, b + 1, 2), (b, b + 2, 1), (b, b + 3, 1)]
+        tags.append("hypervalent_group:" + grp)
+    total = len(syms)
+    aams = rng.sample(range(1, 3 * total), total)
+    order = list(range(total))
+    rng.shuffle(order)
+    attach = rng.choice([i for i in range(n) if ring[i] == "C"])
+    ring_edges = [(i, (i + 1) % n, rb[i]) for i in range(n)]
+
+    def mk(extra):
+        g = nx.Graph()
+        for i in order:
+            g.add_node(i, symbol=syms[i], aam=aams[i])
+        es = ring_edges + [(attach, n, 1)] + extra_edges + extra
+        rng.shuffle(es)
+        for u, v, b in es:
+            if rng.random() < 0.5:
+                u, v = v, u
+            g.add_edge(u, v, bond=b)
+        return g
+    return mk([(n, n + 1, 1)]), mk([(n, n + 2, 1)]), tags
+
+
+def gen_pruned_its(rng):
+    """an ITS as the LIBRARY makes it with explicit hydrogen nodes: ITS(get_its(G, H)).prune(radius, insert_hydrogens=True) of a
+    valence-correct reaction (the inserted H nodes get fresh ids and, from the ITS constructor, fresh map numbers)"""
+    from fgutils.its import ITS, get_its
+    for _ in range(20):
+        G, H, tags = c09.gen_valid_reaction(rng, nmax=10, full=True, with_h=rng.random() < 0.3, big_maps=False)
+        I = get_its(G, H)
+        obj = ITS(I)
+        obj.prune(radius=rng.randint(0, 1), insert_hydrogens=True)
+        J = obj.graph
+        if J.number_of_nodes() and any(d.get("symbol") == "H" for _, d in J.nodes(data=True)):
+            for n in J.nodes:
+                J.nodes[n].pop("idx_map", None)
+            return J, ["library_made", "pruned_with_inserted_hydrogens", "explicit_H_nodes"]
+    return None, []
+
+
 def gen_direct_its(rng, with_symbols=True, good=True):
     """ITS graph written down directly: random ids and orders, labels as tuples, lists or scalars"""
     n = rng.randint(0, 10)
@@ -236,10 +307,20 @@ def label_tags(I):
 # ---------------------------------------------------------------------------
 # implementation calls
 # ---------------------------------------------------------------------------
-def impl_split(I, obj=None):
+UTILS_ENTRY = "fgutils.utils.split_its"
+UTILS_SHARE = 5        # every 5th plain split case goes through the deprecated but public duplicate in fgutils.utils
+
+
+def impl_split(I, obj=None, entry=None):
     from fgutils.its import split_its
     if obj is not None:
         g, h = obj.split()
+    elif entry == UTILS_ENTRY:
+        import contextlib
+        import io
+        import fgutils.utils
+        with contextlib.redirect_stdout(io.StringIO()):      # it prints a deprecation warning on every call
+            g, h = fgutils.utils.split_its(I)
     else:
         g, h = split_its(I)
     return [canon_gr(g), canon_gr(h)]
@@ -262,9 +343,6 @@ def impl_smiles_roundtrip(its_obj):
     return c09.canon_its(ITS.from_smiles(its_obj.to_smiles()).graph)
 
 
-_RD_BT = None
-
-
 def _side_view(I, k):
     """(atoms {aam: symbol}, bonds {frozenset(aam pair): order}) of side k of the ITS, computed by the
     harness itself (independent of fgutils.split_its)"""
@@ -272,28 +350,50 @@ def _side_view(I, k):
     for n, d in I.nodes(data=True):
         if d.get("aam") is None or d.get("symbol") is None:
             return None
-        atoms[d["aam"]] = d["symbol"]
+        atoms[int(d["aam"])] = c09_norm(d["symbol"])
     if len(atoms) != I.number_of_nodes():
         return None
     for u, v, d in I.edges(data=True):
         b = d["bond"]
         o = b[k] if isinstance(b, (tuple, list)) else b
         if o != 0:
-            bonds[frozenset((I.nodes[u]["aam"], I.nodes[v]["aam"]))] = o
+            bonds[frozenset((int(I.nodes[u]["aam"]), int(I.nodes[v]["aam"])))] = o
     return atoms, bonds
 
 
-def rdkit_contract_holds(I):
-    """RDKit's own SMILES writer followed by its own reader is a symbol/bond/map-preserving
-    bijection on each side of I.  Checked with RDKit ONLY (the molecule is built and read back by
-    the harness, not by fgutils.rdkit — that bridge is code under test), so a defect of the bridge
-    cannot hide behind this assumption."""
-    global _RD_BT
+def c09_norm(sym):
+    return sym[0].upper() + sym[1:] if sym.islower() else sym
+
+
+def _mol_view(mol):
+    """map-number view of an RDKit molecule, read with RDKit alone; None unless every atom is mapped, injectively"""
+    _, inv = c09._rd_tables()
+    atoms = {a.GetAtomMapNum(): a.GetSymbol() for a in mol.GetAtoms()}
+    if len(atoms) != mol.GetNumAtoms() or 0 in atoms:
+        return None
+    bonds = {frozenset((b.GetBeginAtom().GetAtomMapNum(), b.GetEndAtom().GetAtomMapNum())): inv.get(b.GetBondType())
+             for b in mol.GetBonds()}
+    return atoms, bonds
+
+
+def _read(smi, sanitize, keep_hs):
     import rdkit.Chem as Chem
-    if _RD_BT is None:
-        _RD_BT = {1: Chem.BondType.SINGLE, 2: Chem.BondType.DOUBLE, 3: Chem.BondType.TRIPLE,
-                  4: Chem.BondType.QUADRUPLE, 1.5: Chem.BondType.AROMATIC}
-    inv = {v: k for k, v in _RD_BT.items()}
+    ps = Chem.SmilesParserParams()
+    ps.sanitize = sanitize
+    ps.removeHs = not keep_hs
+    return Chem.MolFromSmiles(smi, ps)
+
+
+def rdkit_contract_holds(I):
+    """RDKit-representable: RDKit's own SMILES writer followed by its own reader WITH NOTHING REWRITTEN (no sanitisation, written
+    hydrogen atoms kept) is a symbol/bond/map-preserving bijection on each side of I, and RDKit's default reader accepts the
+    string.  Checked with RDKit ONLY (the molecule is built, written and read back by the harness, not by fgutils.rdkit - that
+    bridge is code under test).  Which reader SETTINGS the library uses (RDKit's defaults sanitise - aromaticity is perceived on
+    Kekule-written rings, pentavalent N becomes charge-separated - and drop hydrogen atoms) is library code, not RDKit's contract:
+    an ITS on which those settings lose something is IN the domain and judged (known finding K9 for sanitisation; dropped hydrogen
+    atoms were defect F17, repaired in b76371e: a violation if they are dropped again)."""
+    import rdkit.Chem as Chem
+    bt, _ = c09._rd_tables()
     try:
         for k in (0, 1):
             sv = _side_view(I, k)
@@ -303,24 +403,109 @@ def rdkit_contract_holds(I):
             rw = Chem.RWMol()
             idx = {}
             for a, sym in atoms.items():
-                at = Chem.Atom(sym[0].upper() + sym[1:] if sym.islower() else sym)
+                at = Chem.Atom(sym)
                 at.SetAtomMapNum(int(a))
                 idx[a] = rw.AddAtom(at)
             for pair, o in bonds.items():
                 a, b = tuple(pair)
-                rw.AddBond(idx[a], idx[b], _RD_BT[o])
+                rw.AddBond(idx[a], idx[b], bt[o])
             smi = Chem.MolToSmiles(rw.GetMol())
-            back = Chem.MolFromSmiles(smi)
-            if back is None:
+            back = _read(smi, sanitize=False, keep_hs=True)
+            if back is None or _mol_view(back) != (atoms, bonds):
                 return False
-            batoms = {at.GetAtomMapNum(): at.GetSymbol() for at in back.GetAtoms()}
-            bbonds = {frozenset((b.GetBeginAtom().GetAtomMapNum(), b.GetEndAtom().GetAtomMapNum())): inv.get(b.GetBondType())
-                      for b in back.GetBonds()}
-            if batoms != {a: (s[0].upper() + s[1:] if s.islower() else s) for a, s in atoms.items()} or bbonds != bonds:
+            if _read(smi, sanitize=True, keep_hs=False) is None:
                 return False
         return True
     except Exception:
         return False
+
+
+def _superpose(vg, vh):
+    """the ITS of two map-number views, in c09.canon_its form (the harness's own superposition, independent of get_its)"""
+    common = sorted(set(vg[0]) & set(vh[0]))
+    nodes = [[a, vg[0][a], a] for a in common]
+    edges = []
+    cs = set(common)
+    for pair in set(vg[1]) | set(vh[1]):
+        if pair <= cs:
+            u, v = sorted(pair)
+            edges.append([u, v, [dbl(vg[1].get(pair, 0)), dbl(vh[1].get(pair, 0))]])
+    edges.sort(key=lambda e: (e[0], e[1], e[2][0], e[2][1]))
+    return [nodes, edges]
+
+
+def its_of_enc(enc):
+    """the ITS graph of a request (enc_its form: doubled orders) - so that the classifier needs nothing but the case"""
+    I = nx.Graph()
+    half = lambda x: x // 2 if x % 2 == 0 else x / 2
+    for n, sym, a in enc[0]:
+        I.add_node(n, symbol=sym, aam=a)
+    for u, v, lab in enc[1]:
+        I.add_edge(u, v, bond=tuple(half(x) for x in lab) if isinstance(lab, list) else half(lab))
+    return I
+
+
+def smiles_leg_scope(I, written, impl_out):
+    """scope of known finding K9 (and recognition of the repaired defect F17) on the SMILES leg, decided per case with RDKit ALONE on the reaction SMILES the library wrote:
+      (a) read WITHOUT sanitisation and with hydrogen atoms kept, each side of the string is exactly that side of I (to_smiles
+          wrote the ITS faithfully);
+      (b) the ITS the library read back is the harness's own superposition of RDKit's readings of the two sides with RDKit's
+          default settings (hydrogen atoms dropped) or with sanitisation only (hydrogen atoms kept: library with the repair);
+      (c) sanitisation changed only bonds it made aromatic (both atoms aromatic) or that touch an atom whose formal charge it
+          changed; the default reader dropped only H atoms and no bond between kept atoms.
+    -> (set of effects {'sanitisation', 'hydrogens_dropped'}, detail) or (None, why not)"""
+    parts = written.split(">>") if isinstance(written, str) else []
+    if len(parts) != 2:
+        return None, "no reaction SMILES"
+    if isinstance(impl_out, ImplError):
+        return None, "the implementation raised"
+    views = {"raw": [], "san": [], "dflt": []}
+    kinds = set()
+    for k, side in enumerate(parts):
+        raw, san, dflt = _read(side, False, True), _read(side, True, True), _read(side, True, False)
+        if raw is None or san is None or dflt is None:
+            return None, "RDKit refuses a side of the written SMILES"
+        vr, vs, vd = _mol_view(raw), _mol_view(san), _mol_view(dflt)
+        if vr is None or vs is None or vd is None:
+            return None, "unmapped atoms in the written SMILES"
+        if vr != _side_view(I, k):
+            return None, "side %d of the written SMILES, read by RDKit with nothing rewritten, is not side %d of the ITS: to_smiles lost or changed something" % (k, k)
+        if raw.GetNumAtoms() != san.GetNumAtoms() or raw.GetNumBonds() != san.GetNumBonds() or vr[0] != vs[0]:
+            return None, "sanitisation changed atoms"
+        charged = {a.GetIdx() for a, b in zip(raw.GetAtoms(), san.GetAtoms()) if a.GetFormalCharge() != b.GetFormalCharge()}
+        for x, y in zip(raw.GetBonds(), san.GetBonds()):
+            ends = {x.GetBeginAtomIdx(), x.GetEndAtomIdx()}
+            if ends != {y.GetBeginAtomIdx(), y.GetEndAtomIdx()}:
+                return None, "sanitisation re-ordered bonds"
+            if x.GetBondType() == y.GetBondType():
+                continue
+            if y.GetIsAromatic() and y.GetBeginAtom().GetIsAromatic() and y.GetEndAtom().GetIsAromatic():
+                kinds.add("aromaticity_perceived")
+            elif ends & charged:
+                kinds.add("charge_separated_normal_form")
+            else:
+                return None, "a bond changed by sanitisation is neither aromatic nor at an atom whose charge changed"
+        dropped = set(vs[0]) - set(vd[0])
+        if set(vd[0]) - set(vs[0]) or any(vs[0][a] != "H" for a in dropped):
+            return None, "the default reader dropped something that is not a hydrogen atom"
+        if vd[1] != {p_: o for p_, o in vs[1].items() if not (p_ & dropped)} or any(vd[0][a] != vs[0][a] for a in vd[0]):
+            return None, "the default reader changed kept atoms or bonds"
+        views["raw"].append(vr)
+        views["san"].append(vs)
+        views["dflt"].append(vd)
+    out = [[list(x) for x in impl_out[0]], [list(x) for x in impl_out[1]]]
+    eff = set()
+    if kinds:
+        eff.add("sanitisation")
+    if out == _superpose(*views["san"]):
+        pass
+    elif out == _superpose(*views["dflt"]):
+        eff.add("hydrogens_dropped")
+    else:
+        return None, "ITS.from_smiles(written) is not the superposition of RDKit's own readings of the two sides"
+    if out == _superpose(*views["raw"]):
+        return None, "RDKit's reader settings lose nothing on this string: the difference is not RDKit's"
+    return eff, "+".join(sorted(kinds | ({"hydrogen_atoms_dropped"} if "hydrogens_dropped" in eff else set())))
 
 
 # ---------------------------------------------------------------------------
@@ -343,10 +528,18 @@ def as_variant(I, rng, kinds):
     return V, tag
 
 
-def split_case(I, tags, via_object=False, form=None):
-    """`form`: tag of the input form when I is a common.input_variant of the generated graph"""
+_split_counter = [0]
+
+
+def split_case(I, tags, via_object=False, form=None, entry=None):
+    """`form`: tag of the input form when I is a common.input_variant of the generated graph; `entry`: UTILS_ENTRY = the
+    public duplicate fgutils.utils.split_its (every UTILS_SHARE-th case that does not go through an ITS object)"""
     if form:
         tags = tuple(tags) + ("input_form", form)
+    if not via_object and entry is None:
+        _split_counter[0] += 1
+        if _split_counter[0] % UTILS_SHARE == 0:
+            entry = UTILS_ENTRY
     obj = None
     if via_object:
         from fgutils.its import ITS
@@ -354,12 +547,16 @@ def split_case(I, tags, via_object=False, form=None):
         if isinstance(obj, ImplError):
             obj = None
     enc = enc_its(I)
-    out = call_impl(impl_split, I, obj)
+    out = call_impl(impl_split, I, obj, entry)
     req = [Atom("C10"), Atom("split"), enc]
     key = repr(enc) if I.number_of_edges() > 0 else None
-    return Case(req, out, in_domain=True, nontrivial_key=("split", key, form) if key else None,
-                meta={"variant": form} if form else {},
-                tags=("op_split",) + tuple(tags) + tuple(label_tags(I)) + (("via_ITS.split",) if via_object else ()))
+    meta = {"variant": form} if form else {}
+    if entry:
+        meta["entry"] = entry
+    return Case(req, out, in_domain=True, nontrivial_key=("split", key, form, entry) if key else None,
+                meta=meta,
+                tags=("op_split",) + tuple(tags) + tuple(label_tags(I)) + (("via_ITS.split",) if via_object else ())
+                + ("entry:" + (entry or ("ITS.split" if via_object else "fgutils.its.split_its")),))
 
 
 def has_symbols(I):
@@ -397,7 +594,8 @@ def smiles_case(I, tags, r, form=None):
     out = call_impl(impl_smiles_roundtrip, obj)
     enc = enc_its(I)            # after the constructor: every node has a map number
     req = [Atom("C10"), Atom("resuper"), enc]
-    meta = {"dom_oracle": dom, "via": "smiles_roundtrip"}
+    written = call_impl(obj.to_smiles)
+    meta = {"dom_oracle": dom, "via": "smiles_roundtrip", "written": None if isinstance(written, ImplError) else written}
     form_ok = form not in SMILES_VARIANT_OUT_OF_DOMAIN     # see SMILES_VARIANT_OUT_OF_DOMAIN: real finding, kept out of the verdict
     if form:
         meta["variant"] = form
@@ -405,10 +603,12 @@ def smiles_case(I, tags, r, form=None):
     if not contract:
         r.count("assumption_broken:rdkit_did_not_roundtrip_its_own_smiles")
         t += ("rdkit_contract_broken",)
-        meta["smiles"] = call_impl(obj.to_smiles) if not isinstance(obj, ImplError) else None
+        meta["smiles"] = meta["written"]
     if not form_ok:
         t += ("form_out_of_domain(graph_to_mol refuses numpy map numbers)",)
     key = repr(enc) if I.number_of_edges() > 0 and dom and contract and form_ok else None
+    if any(d.get("symbol") == "H" for _, d in I.nodes(data=True)):
+        t += ("explicit_H_nodes:in_domain" if dom and contract and form_ok else "explicit_H_nodes:out_of_domain",)
     return Case(req, out, in_domain=dom and contract and form_ok, meta=meta,
                 nontrivial_key=("smiles", key, form) if key else None, tags=t)
 
@@ -445,7 +645,9 @@ def replay(path):
         return I
     if op == "split":
         I = formed(c09.graph_from_wire(req[2]))
-        out = call_impl(impl_split, I)
+        if meta.get("entry"):
+            print("entry point: %s" % meta["entry"])
+        out = call_impl(impl_split, I, None, meta.get("entry"))
         creq = [Atom("C10"), Atom("split"), enc_its(I)]
     elif op == "resuper":
         I = formed(c09.graph_from_wire(req[2]))
@@ -507,14 +709,43 @@ def run(tier, seed):
     if not prepare(r, PROOFS, "C10"):
         return 2
     rng = r.rng
+    from rdkit import RDLogger
+    RDLogger.DisableLog("rdApp.*")      # e.g. "not removing hydrogen atom without neighbors"
     n_rounds = 700 if tier == "quick" else 40000
     cases = []
     mismatches = 0
 
+    from common import load_known_findings
+    known = {f["id"]: f for f in load_known_findings()}
+    hits = {"K9": 0}
+    hit_kinds = {}
+
+    def classify_known(o):
+        """only the SMILES leg has known findings; scope decided per case by smiles_leg_scope (RDKit alone)"""
+        m = o.case.meta
+        if m.get("via") != "smiles_roundtrip" or not m.get("written"):
+            return None
+        eff, why = smiles_leg_scope(its_of_enc(o.case.req[2]), m["written"], o.case.impl)
+        if not eff:
+            m["classifier"] = why
+            return None
+        if "hydrogens_dropped" in eff:
+            # F17 (repaired in /repo, b76371e): a fixed entry suppresses nothing - hydrogen atoms dropped by the reader are a violation
+            m["classifier"] = "the reader dropped written hydrogen atoms (%s): defect F17, fixed in b76371e - not a known finding" % why
+            return None
+        fid = "K9"
+        f = known.get(fid)
+        if f is None or f.get("status") != "open":
+            m["classifier"] = "inside the scope of %s, which is not an open finding" % fid
+            return None
+        hits[fid] += 1
+        hit_kinds[why] = hit_kinds.get(why, 0) + 1
+        return f
+
     def flush(force=False):
         nonlocal cases, mismatches
         if cases and (force or len(cases) >= 4000):
-            outs = r.evaluate(cases)
+            outs = r.evaluate(cases, classify_known=classify_known)
             mismatches += c09.check_domain_flags(r, outs, 0)
             cases = []
 
@@ -546,8 +777,8 @@ def run(tier, seed):
             G, H = c09.graph_from_desc(e["G"]), c09.graph_from_desc(e["H"])
             cases.append(split_of_its_case(G, H, tags))
         elif e["kind"] == "smiles":
-            from fgutils.rdkit import smiles_to_graph
-            G, H = smiles_to_graph(e["smiles"])
+            # the reaction the string denotes: the two molecules RDKit builds, read with RDKit ALONE (c09.rdkit_alone_reaction)
+            G, H = c09.rdkit_alone_reaction(e["smiles"])
             cases.append(split_of_its_case(G, H, tags, via_smiles=e["smiles"]))
     for k in range(n_rounds):
         big = k % 25 == 0
@@ -600,16 +831,24 @@ def run(tier, seed):
         # the legs through RDKit
         if k % 2 == 0:
             from fgutils.its import get_its
+            I = None
             if k % 10 == 0:
                 G, H, tags = gen_metal_reaction(rng)
             elif k % 10 == 4:
                 G, H, tags = gen_aromatic_reaction(rng)
+            elif k % 10 == 2:
+                G, H, tags = gen_kekule_reaction(rng)          # Kekule-written rings, nitro / diazo / sulfone without charges
+            elif k % 10 == 6:
+                I, tags = gen_pruned_its(rng)                  # explicit H nodes as ITS.prune(insert_hydrogens=True) makes them
+                if I is None:
+                    G, H, tags = c09.gen_valid_reaction(rng, nmax=9, full=True, with_h=True)
             else:
-                G, H, tags = c09.gen_valid_reaction(rng, nmax=14 if big else 9, full=rng.random() < 0.85)
-            I = get_its(G, H)
-            for n in I.nodes:
-                I.nodes[n].pop("idx_map", None)
-            tags = ["library_made"] + tags
+                G, H, tags = c09.gen_valid_reaction(rng, nmax=14 if big else 9, full=rng.random() < 0.85, with_h=k % 10 == 8)
+            if I is None:
+                I = get_its(G, H)
+                for n in I.nodes:
+                    I.nodes[n].pop("idx_map", None)
+                tags = ["library_made"] + tags
             v = rng.random()
             if v < 0.5:
                 I = relabel_shuffled(I, rng)
@@ -626,23 +865,31 @@ def run(tier, seed):
             sc = smiles_case(I, tags, r, form=form)
             if sc is not None:
                 cases.append(sc)
-            if k % 4 == 0:
+            if k % 4 == 0 and k % 10 != 6:
                 smi = call_impl(c09.reaction_smiles, G, H, rng)
-                if not isinstance(smi, ImplError):
-                    from fgutils.rdkit import smiles_to_graph
-                    gh = call_impl(smiles_to_graph, smi)
-                    if not isinstance(gh, ImplError):
+                if not isinstance(smi, ImplError) and not c09.has_explicit_h_atom(smi):
+                    # reference reaction = the two molecules RDKit builds from the string, read with RDKit ALONE (strings that write
+                    # hydrogen ATOMS are judged on the to_smiles -> from_smiles leg only: reader settings, F17)
+                    gh = c09.rdkit_alone_reaction(smi)
+                    if gh is not None:
                         cases.append(split_of_its_case(gh[0], gh[1], tags, via_smiles=smi))
         flush()
     flush(force=True)
     r.assumptions = [
         "a networkx Graph enters split_its only through graph.copy(), graph.edges(data=True), remove_edge and item assignment; modelled on ordered node/edge lists",
-        "RDKit's SMILES writer followed by its reader is a symbol-, bond- and map-preserving bijection on each side of the ITS "
-        "(checked per case; %d case(s) of this run broke it and were put outside the domain)" % r.dist.get(
+        "RDKit-representable (checked per case with RDKit alone): RDKit's SMILES writer followed by its reader WITH NOTHING REWRITTEN (sanitize=False, "
+        "removeHs=False) is a symbol-, bond- and map-preserving bijection on each side of the ITS and the default reader accepts the string "
+        "(%d case(s) of this run broke it and were put outside the domain).  The reader SETTINGS are the library's choice: an ITS on which RDKit's "
+        "defaults (sanitisation, hydrogen atoms removed) would lose something is in the domain; a sanitisation-rewritten side is known finding K9 only inside "
+        "smiles_leg_scope; dropped hydrogen atoms (F17, fixed b76371e) and anything else are violations" % r.dist.get(
             "assumption_broken:rdkit_did_not_roundtrip_its_own_smiles", 0),
         "ITS graphs handed to get_its∘split_its have map numbers >= 1, pairwise distinct, and no label (0,0) / scalar 0; others are counted as out of domain",
         "which fresh numbers ITS(graph) gives to unmapped nodes is C20's subject: the round trip is compared against the graph after the constructor ran",
     ]
+    r.extra_cov["known_finding_hits_by_id"] = dict(hits)
+    r.extra_cov["known_finding_hits_by_effect"] = dict(sorted(hit_kinds.items()))
+    r.extra_cov["smiles_leg_explicit_H_cases_in_domain"] = r.dist.get("tag:explicit_H_nodes:in_domain", 0)
+    r.extra_cov["split_cases_by_entry_point"] = {k_[len("tag:entry:"):]: v for k_, v in sorted(r.dist.items()) if k_.startswith("tag:entry:")}
     if mismatches:
         print("ERROR property=C10 harness oracle and Lean domain predicate disagree on %d case(s)" % mismatches)
         r.finish(level="proof", rule="", checker_cmd="", explanation="domain flag mismatch")
@@ -651,8 +898,11 @@ def run(tier, seed):
         level="proof",
         rule="ITS graphs as the library makes them (get_its of random reactions: ids = map numbers, unchanged bonds, orders 1/1.5/2/3), the same "
              "with shuffled ids/insertion orders, and hand-written ones (tuple, list and scalar labels, zero components, nodes without symbol/aam); "
-             "operations split, get_its∘split_its, split_its∘get_its (75% fully mapped), ITS(I).to_smiles→ITS.from_smiles on valence-correct "
-             "reactions over C,N,O,S,P,F,Cl,Br; 15% of the split / get_its∘split_its / ITS(I).split() / SMILES-leg inputs (and every corpus ITS) are "
+             "operations split (every 5th plain call through the deprecated public duplicate fgutils.utils.split_its), get_its∘split_its, "
+             "split_its∘get_its (75% fully mapped), ITS(I).to_smiles→ITS.from_smiles on valence-correct "
+             "reactions over C,N,O,S,P,F,Cl,Br,H (per 10 SMILES-leg cases: 1 metal-metal multiple bond, 1 aromatic ring, 1 Kekule-written ring with optional "
+             "nitro/diazo/sulfone/phosphine-oxide group written without charges, 1 ITS pruned by the library with inserted hydrogens, 1 reaction with explicit "
+             "H nodes; 15% map numbers up to 10^6); 15% of the split / get_its∘split_its / ITS(I).split() / SMILES-leg inputs (and every corpus ITS) are "
              "handed over in another FORM (nx.freeze, sub-graph view of a larger graph, extra attributes, list labels, numpy ids/map numbers/orders; "
              "tags variant=*; numpy on the SMILES leg is out of domain: RDKit's SetAtomMapNum refuses numpy.int64); non-trivial = in-domain case with at least one edge, distinct by operation and wire form",
         checker_cmd="cd lean && lake build FGVerif.Proofs.C10 && lake env lean FGVerif/Audit/C10.lean",
